@@ -1114,6 +1114,12 @@ decl(struct scope *s, struct func *f)
 			d->value = mkglobal(d);
 			d->u.func.inlinedefn = d->linkage == LINKEXTERN && fs & FUNCINLINE && !(sc & SCEXTERN) && (!prior || prior->u.func.inlinedefn);
 			d->u.func.isnoreturn = fs & FUNCNORETURN;
+			if (!d->u.func.inlinedefn && d->u.func.inlinebody) {
+				/* no longer an inline definition (6.7.4p7) */
+				emitfunc(d->u.func.inlinebody, true);
+				delfunc(d->u.func.inlinebody);
+				d->u.func.inlinebody = NULL;
+			}
 			if (tok.kind == TLBRACE) {
 				if (!allowfunc)
 					error(&tok.loc, "function definition not allowed");
@@ -1133,11 +1139,13 @@ decl(struct scope *s, struct func *f)
 				stmt(f, s);
 				if (d->u.func.isnoreturn)
 					funchlt(f);
-				/* XXX: need to keep track of function in case a later declaration specifies extern */
 				if (!d->u.func.inlinedefn)
 					emitfunc(f, d->linkage == LINKEXTERN);
 				s = delscope(s);
-				delfunc(f);
+				if (d->u.func.inlinedefn)
+					d->u.func.inlinebody = f;
+				else
+					delfunc(f);
 				d->defined = true;
 				return true;
 			} else if (funcscope) {
